@@ -1,5 +1,5 @@
 import Driver.CifArg
-import CifModel.Model.Walk
+import CifModel.Model.WalkH
 /-
   family `walk` (C14):   walk <cif tokens> prog <k>:<resp>… [ord <listing>]   ↦   wk rc=<rc> n=<calls> log=<events>
   The CIF walked is the listing when present (the enumeration orders the executor observed, see harness/x_walk.c),
@@ -99,42 +99,49 @@ def showEv : Ev → String
   | .pktEnd ps => " @pe" ++ showPairs ps
   | .item n v => " @it " ++ hex n ++ " " ++ CifArg.showValue v
 
-/-- what the container handle answers inside its start / end callback (harness/x_walk.c `log_queries`); `isBlock`: the model
-    knows which kind of container each handle is -/
-def showQueries (isBlock : Bool) : WCont → String
-  | .mk _ frames loops =>
-    let cf := match frames with
-      | .mk fc _ _ :: _ => "0," ++ hex fc
-      | [] => "-"
-    let il := match loops with
-      | l :: _ => (match l.names with
-          | n :: _ => hex n ++ ",0," ++ hexOpt l.category
-          | [] => "-")
-      | [] => "-"
-    s!" q:{if isBlock then 0 else 6}:{frames.length}:{loops.length}:{cf}:{il}"
+/-- what the container handle `path` answers inside its start / end callback (harness/x_walk.c `log_queries`): every answer is
+    obtained THROUGH THE HANDLE the model's walker passed (Model/WalkH.lean `q…`: the handle is looked up in the CIF) —
+    cif_container_assert_block, the numbers of frames / loops listed, cif_container_get_frame with the code of the first frame listed
+    (handle `path ++ [0]`) and the code of the handle it returns, cif_container_get_item_loop with the first name of the first loop
+    listed (handle `.loop path 0`) and the category of the loop handle it returns -/
+def showQueries (c : WCif) (path : Path) : String :=
+  let nf := match qNumFrames c path with | some n => toString n | none => "-1"
+  let nl := match qNumLoops c path with | some n => toString n | none => "-1"
+  let cf := match qCode c (path ++ [0]) with
+    | none => "-"
+    | some fc =>
+      match qGetFrame c path fc with
+      | some (.cont p') => "0," ++ (match qCode c p' with | some c' => hex c' | none => "!")
+      | _ => "23,!"
+  let il := match qLoopNames c path 0 with
+    | some (nm :: _) =>
+      (match qItemLoop c path nm with
+       | some (.loop p' i) => hex nm ++ ",0," ++ (match qLoopCategory c p' i with | some cat => hexOpt cat | none => "!")
+       | _ => hex nm ++ ",43,!")
+    | _ => "-"
+  s!" q:{qAssertBlock path}:{nf}:{nl}:{cf}:{il}"
 
-mutual
-  /-- the container callbacks of the full traversal, in order, each with the answers of its handle -/
-  def annotCont (depth : Nat) : WCont → List (String × String)
-    | .mk code frames loops =>
-      let q := showQueries (depth == 0) (.mk code frames loops)
-      (showEv (if depth = 0 then .blockStart code else .frameStart code), q)
-        :: (annotConts (depth + 1) frames ++ [(showEv (if depth = 0 then .blockEnd code else .frameEnd code), q)])
-  def annotConts (depth : Nat) : List WCont → List (String × String)
-    | [] => []
-    | c :: cs => annotCont depth c ++ annotConts depth cs
-end
+/-- bit 1 of the `lq` mask: a handler's own pass over the packets through the loop handle (harness/x_walk.c `log_loop`) -/
+def showLoopIter (c : WCif) (path : Path) (i : Nat) : String :=
+  match qLoopPackets c path i with
+  | some 0 => " i:36:0:0:-1"
+  | some n => s!" i:0:{n}:1:0"
+  | none => " i:?"
 
-/-- the delivered callbacks are a sublist of the full traversal (C14_visits_sublist) and codes are unique among siblings: every
-    container callback of the log is the next one with the same text in the annotated traversal -/
-def attach : List String → List (String × String) → List String
-  | [], _ => []
-  | e :: es, ann =>
-    if e.startsWith " @bs " || e.startsWith " @be " || e.startsWith " @fs " || e.startsWith " @fe " then
-      match ann.dropWhile (fun a => a.1 != e) with
-      | a :: rest => (e ++ a.2) :: attach es rest
-      | [] => (e ++ " q:?") :: attach es []
-    else e :: attach es ann
+/-- bit 2 of the `lq` mask: category and names through the handle of the loop the packet / item belongs to (the handle passed to
+    loop_start: container `path`, position `i`) -/
+def showLoopOf (c : WCif) (path : Path) (i : Nat) : String :=
+  match qLoopCategory c path i, qLoopNames c path i with
+  | some cat, some names => " l:" ++ hexOpt cat ++ ":" ++ toString names.length ++ ":" ++ ",".intercalate (names.map hex)
+  | _, _ => " l:?"
+
+/-- a callback with the answers of the handle it was given -/
+def showEvH (mask : Nat) (c : WCif) : Ev × Handle → String
+  | (e, .cont path) => showEv e ++ showQueries c path
+  | (e, .loop path i) => showEv e ++ (if mask % 2 = 1 then showLoopIter c path i else "")
+  | (e, .packet path i _) => showEv e ++ (if mask / 2 % 2 = 1 then showLoopOf c path i else "")
+  | (e, .item path i _ _) => showEv e ++ (if mask / 2 % 2 = 1 then showLoopOf c path i else "")
+  | (e, _) => showEv e
 
 def splitAt (sep : String) (xs : List String) : List String × Option (List String) :=
   match xs.span (· != sep) with
@@ -145,6 +152,9 @@ def handle : Handler := fun args =>
   if args == ["consts"] then
     some s!"wk consts {CONTINUE} {SKIP_CURRENT} {SKIP_SIBLINGS} {END} {OK} {FINISHED} {EMPTY_LOOP}"
   else
+  let (mask, args) := match args with
+    | a :: r => if a.startsWith "lq" then ((a.drop 2).toNat?.getD 0, r) else (0, args)
+    | [] => (0, args)
   let (cifToks, rest) := splitAt "prog" args
   match rest with
   | none => none
@@ -158,7 +168,10 @@ def handle : Handler := fun args =>
           match CifArg.parseCif {} (cifToks.length + 1) cifToks with
           | some (c, []) => some (WCif.ofCif c)
           | _ => none
-      let (log, rc) := walk (progOf tbl) cif
-      pure (s!"wk rc={rc} n={log.length} log=" ++ String.join (attach (log.map showEv) (annotConts 0 cif)))
+      let (log, rc) := walkH (progOf tbl) cif
+      -- cross-check of the two models on every case: forgetting the handles must give Model/Walk.lean's walk (C14_handles_refine)
+      let (log0, rc0) := walk (progOf tbl) cif
+      if rc0 != rc || (log0.map showEv) != (log.map (fun x => showEv x.1)) then pure "wk MODELS-DIFFER" else
+      pure (s!"wk rc={rc} n={log.length} log=" ++ String.join (log.map (showEvH mask cif)))
 
 end Driver.Fam.Walk
